@@ -199,6 +199,9 @@ type FScenario struct {
 	Buf     int          `json:"buf"`
 	Conns   []ConnScript `json:"conns"`
 	Senders int          `json:"senders"`
+	// Simultaneous: all connections are waiting in the listener's backlog when the acceptor starts accepting (no outbound half;
+	// the first message of every connection is unique: a handler is matched to its connection by the first message it is given)
+	Simultaneous bool `json:"simultaneous"`
 }
 
 type FrameObs struct {
@@ -340,8 +343,20 @@ func RunFraming(sc *FScenario) ([]FrameObs, string) {
 				ready <- struct{}{}
 			})
 		go func() { _ = acc.ListenAndServe() }()
+		if sc.Simultaneous {
+			for i := 0; i < n; i++ {
+				l.conns <- conns[i]
+			}
+			for i := 0; i < n; i++ {
+				select {
+				case <-ready:
+				case <-time.After(2 * time.Second):
+					return nil, "acceptor did not create a handler for a connection"
+				}
+			}
+		}
 		// connections are accepted one after the other so that handler i belongs to connection i
-		for i := 0; i < n; i++ {
+		for i := 0; i < n && !sc.Simultaneous; i++ {
 			l.conns <- conns[i]
 			select {
 			case <-ready:
@@ -371,6 +386,48 @@ func RunFraming(sc *FScenario) ([]FrameObs, string) {
 			defer recs[i].mu.Unlock()
 			return len(recs[i].delivered) >= len(sc.Conns[i].Sent)
 		})
+	}
+	if sc.Simultaneous {
+		// the handlers were created in an order of their own: wait until every connection's messages have arrived somewhere,
+		// then match handler k to the connection whose first message it was given first
+		waitFor(2*time.Second, func() bool {
+			tot, want := 0, 0
+			for i := range recs {
+				recs[i].mu.Lock()
+				tot += len(recs[i].delivered)
+				recs[i].mu.Unlock()
+				want += len(sc.Conns[i].Sent)
+			}
+			return tot >= want
+		})
+		time.Sleep(20 * time.Millisecond)
+		perm := make([]*rec, n)
+		used := make([]bool, n)
+		for k := range recs {
+			recs[k].mu.Lock()
+			var first B
+			if len(recs[k].delivered) > 0 {
+				first = recs[k].delivered[0]
+			}
+			recs[k].mu.Unlock()
+			for i := range sc.Conns {
+				if perm[i] == nil && first != nil && len(sc.Conns[i].Sent) > 0 && string(first.bytes()) == string(sc.Conns[i].Sent[0].bytes()) {
+					perm[i], used[k] = recs[k], true
+					break
+				}
+			}
+		}
+		for i := range perm { // whatever could not be matched
+			if perm[i] == nil {
+				for k := range recs {
+					if !used[k] {
+						perm[i], used[k] = recs[k], true
+						break
+					}
+				}
+			}
+		}
+		recs = perm
 	}
 	time.Sleep(2 * time.Millisecond) // anything delivered in excess shows up
 	// outbound half: several goroutines hand messages to each connection
